@@ -33,7 +33,8 @@ MAY_PANIC = [
     (r"slice::index::<impl (std|core)::ops::Index(Mut)?<.*> for \[[^\]]*\]>::index(_mut)?$", "slice-index"),
     (r"ops::Index(Mut)?<.*>>::index(_mut)?$", "index"),
     (r"ops::Index(Mut)?::index(_mut)?$", "index"),
-    (r"<impl \[[^\]]*\]>::(swap|copy_from_slice|clone_from_slice|split_at|split_at_mut|chunks|chunks_exact|chunks_mut|windows|rotate_left|rotate_right|copy_within|select_nth_unstable\w*)$", "slice-arg"),
+    (r"<impl \[[^\]]*\]>::(split_at|split_at_mut)$", "slice-index"),
+    (r"<impl \[[^\]]*\]>::(swap|copy_from_slice|clone_from_slice|chunks|chunks_exact|chunks_mut|windows|rotate_left|rotate_right|copy_within|select_nth_unstable\w*)$", "slice-arg"),
     (r"<impl f64>::clamp$", "clamp"),
     (r"cmp::Ord::clamp$|cmp::PartialOrd::clamp$", "clamp"),
     (r"<impl (usize|u\d+|i\d+|isize)>::(pow|div_euclid|rem_euclid|next_power_of_two|ilog\w*|div_ceil|next_multiple_of|abs|isqrt|midpoint|strict_\w+)$", "int-arith"),
@@ -94,6 +95,7 @@ PURE = [
     r"ops::function::impls::<impl .*>::call(_mut|_once)?$",
     r"ops::Range(Inclusive|To|From)?(<.*>)?::(contains|is_empty|len|new|start|end)$",
     r"hint::(black_box|must_use)$", r"marker::",
+    r"num::(nonzero::)?NonZero(::<.*>)?::(new|get)$",
     r"f64::consts", r"num::<impl f64>::\w+$", r"num::FpCategory",
     r"(std|core)::borrow::(Borrow|BorrowMut)(<.*>)?::borrow(_mut)?$",
 ]
@@ -109,6 +111,8 @@ def strip_turbofish(n):
     depth = 0
     for i in range(len(n) - 1, -1, -1):
         ch = n[i]
+        if ch == ">" and i > 0 and n[i - 1] == "-":
+            continue  # the arrow of a fn type, not a bracket
         if ch == ">":
             depth += 1
         elif ch == "<":
@@ -166,6 +170,10 @@ def classify(callee, crate="ta", local_traits=()):
         st = callee.get("self_ty") or {}
         if st.get("k") == "param":
             return ("user", "%s on %s" % (callee["path"], st.get("name")))
+        if st.get("k") == "adt" and st.get("krate") == crate:
+            # a crate trait method on a crate type, generic in the trait's arguments (`TrueRange: Next<I>`): one of this crate's own
+            # impls of that trait for that type — all of them are analysed, and the evaluator picks the instance at each call site
+            return ("local", name)
         return ("unknown", "unresolved crate trait call on " + str(st.get("s")))
     both = name + " | " + generic_name
     if krate in ("serde", "serde_core", "serde_derive") or "_serde::" in name:
